@@ -216,9 +216,9 @@ Qed.
 (* ================================================================================================ *)
 (* E. the three spellings of a request                                                              *)
 (* ================================================================================================ *)
-Lemma coerce_equiv v m cross pp inf :
-  NoDup (map fst m) -> fm_wf m -> (v = Async -> cross = true -> ctor_ok m inf) ->
-  let b := emit v m cross pp inf in
+Lemma coerce_equiv v m cross pp :
+  NoDup (map fst m) -> fm_wf m -> (v = Async -> cross = true -> no_maps m) ->
+  let b := emit v m cross pp in
   exec b RNone [] = OSend empty_req /\
   exec b (RDict empty_req) [] = OSend empty_req /\
   exec b (RMsg empty_req) [] = OSend empty_req /\
@@ -227,13 +227,13 @@ Lemma coerce_equiv v m cross pp inf :
 Proof.
   intros ND WF C b. subst b.
   assert (H0 : existsb (passed []) (names m) = false) by apply passed_nil.
-  assert (Hd : forall d, exec (emit v m cross pp inf) (RDict d) [] = OSend d).
-  { intro d. apply (exec_given v m cross pp inf (RDict d) [] ND WF C H0). }
-  assert (Hm : forall r, exec (emit v m cross pp inf) (RMsg r) [] = OSend (if cross && msg_falsy pp r then empty_req else r)).
-  { intro r. apply (exec_given v m cross pp inf (RMsg r) [] ND WF C H0). }
+  assert (Hd : forall d, exec (emit v m cross pp) (RDict d) [] = OSend d).
+  { intro d. apply (exec_given v m cross pp (RDict d) [] ND WF C H0). }
+  assert (Hm : forall r, exec (emit v m cross pp) (RMsg r) [] = OSend (if cross && msg_falsy pp r then empty_req else r)).
+  { intro r. apply (exec_given v m cross pp (RMsg r) [] ND WF C H0). }
   split; [|split; [apply Hd|split; [|split; assumption]]].
-  - rewrite (exec_kwargs v m cross pp inf [] C).
-    apply (apply_idle m); [|assumption]. now apply built_by_covers.
+  - rewrite (exec_kwargs v m cross pp []).
+    apply (apply_idle m); [|assumption]. now apply emit_covers.
   - rewrite Hm. destruct (cross && msg_falsy pp empty_req); reflexivity.
 Qed.
 
